@@ -20,6 +20,7 @@ import (
 	"errors"
 	"fmt"
 	"os"
+	"strings"
 )
 
 import (
@@ -139,11 +140,16 @@ func HostRuleConfLoad(filename string) (HostConf, error) {
 	// convert HostTagToHost to Host2HostTag
 	host2HostTag := make(Host2HostTag)
 
+	// host names are matched case-insensitively, so two names that differ
+	// only in case are the same host: which tag wins would depend on the
+	// map iteration order
+	hostSeen := make(map[string]bool)
 	for hostTag, hostnameList := range *config.Hosts {
 		for _, hostName := range *hostnameList {
-			if host2HostTag[hostName] != "" {
+			if hostSeen[strings.ToLower(hostName)] {
 				return conf, fmt.Errorf("host duplicate for %s", hostName)
 			}
+			hostSeen[strings.ToLower(hostName)] = true
 			host2HostTag[hostName] = hostTag
 		}
 	}
@@ -153,6 +159,11 @@ func HostRuleConfLoad(filename string) (HostConf, error) {
 
 	for product, hostTagList := range *config.HostTags {
 		for _, hostTag := range *hostTagList {
+			// a host tag belongs to one product: which one wins would
+			// depend on the map iteration order
+			if other, ok := hostTag2Product[hostTag]; ok && other != product {
+				return conf, fmt.Errorf("hostTag[%s] is listed under product[%s] and product[%s]", hostTag, other, product)
+			}
 			hostTag2Product[hostTag] = product
 		}
 	}
